@@ -290,4 +290,44 @@ theorem merge_right_source (hR : R.Nodup)
 
 end props
 
+/-! ### labels of the pruned merge -/
+
+/-- a join key that also names a column of the other side must be a key common to both sides -/
+def KeysDoNotCollide (m : MergeP) (L R : List Name) : Prop :=
+  (∀ c, c ∈ m.leftOn → c ∈ R → commonKey m c = true) ∧ (∀ c, c ∈ m.rightOn → c ∈ L → commonKey m c = true)
+
+theorem labelL_pruned (m : MergeP) (R pr : List Name) (c : Name) (hsub : ∀ x, x ∈ pr → x ∈ R)
+    (hpart : (R.contains c && !commonKey m c) = true → c ∈ pr) : labelL m pr c = labelL m R c := by
+  unfold labelL
+  by_cases hcol : (R.contains c && !commonKey m c) = true
+  · have hc := hpart hcol
+    simp only [Bool.and_eq_true] at hcol
+    rw [if_pos (by rw [Bool.and_eq_true]; exact ⟨List.contains_iff_mem.mpr hc, hcol.2⟩),
+        if_pos (by rw [Bool.and_eq_true]; exact ⟨hcol.1, hcol.2⟩)]
+  · rw [if_neg hcol]
+    have : ¬(pr.contains c && !commonKey m c) = true := by
+      intro hh
+      simp only [Bool.and_eq_true] at hh
+      apply hcol
+      rw [Bool.and_eq_true]
+      exact ⟨List.contains_iff_mem.mpr (hsub c (List.contains_iff_mem.mp hh.1)), hh.2⟩
+    rw [if_neg this]
+
+theorem labelR_pruned (m : MergeP) (L pl : List Name) (c : Name) (hsub : ∀ x, x ∈ pl → x ∈ L)
+    (hpart : (L.contains c && !commonKey m c) = true → c ∈ pl) : labelR m pl c = labelR m L c := by
+  unfold labelR
+  by_cases hcol : (L.contains c && !commonKey m c) = true
+  · have hc := hpart hcol
+    simp only [Bool.and_eq_true] at hcol
+    rw [if_pos (by rw [Bool.and_eq_true]; exact ⟨List.contains_iff_mem.mpr hc, hcol.2⟩),
+        if_pos (by rw [Bool.and_eq_true]; exact ⟨hcol.1, hcol.2⟩)]
+  · rw [if_neg hcol]
+    have : ¬(pl.contains c && !commonKey m c) = true := by
+      intro hh
+      simp only [Bool.and_eq_true] at hh
+      apply hcol
+      rw [Bool.and_eq_true]
+      exact ⟨List.contains_iff_mem.mpr (hsub c (List.contains_iff_mem.mp hh.1)), hh.2⟩
+    rw [if_neg this]
+
 end Dx.Cols
